@@ -84,6 +84,29 @@ def p_c08(run):
              [("native", "gcc", "-O2"), ("native", "gcc", "-O3"), ("native", "clang", "-O2"), ("w32", "gcc", "-O2"),
               ("nosimd", "gcc", "-O2"), ("nosimd32", "gcc", "-O2"), ("neutral", "gcc", "-O2"), ("neutral32", "clang", "-O2"),
               ("noua", "gcc", "-O2"), ("nosimd", "gcc", "-O0")]
+    # (S) source level, every public-parameter combination at once: conservative taint analysis of src/*.c on clang's
+    #     AST per configuration — no branch condition, array index, pointer offset, memcpy/memset size or indirect-call
+    #     target may depend on data loaded from key/tweak/counter/data/schedule memory
+    ck = _imports()
+    v0 = C.build_variant(run.work, "native", "gcc", "-O2")
+    tflags = {"native": [], "w32": ["-DSKINNY_C_VERIF", "-DSKINNY_C_VERIF_64BIT=0"],
+              "neutral": ["-DSKINNY_C_VERIF", "-DSKINNY_C_VERIF_LITTLE_ENDIAN=0", "-DSKINNY_C_VERIF_VEC128=0", "-DSKINNY_C_VERIF_VEC256=0"],
+              "neutral32noua": ["-DSKINNY_C_VERIF", "-DSKINNY_C_VERIF_LITTLE_ENDIAN=0", "-DSKINNY_C_VERIF_64BIT=0", "-DSKINNY_C_VERIF_UNALIGNED=0",
+                                "-DSKINNY_C_VERIF_VEC128=0", "-DSKINNY_C_VERIF_VEC256=0"],
+              "noua": ["-DSKINNY_C_VERIF", "-DSKINNY_C_VERIF_UNALIGNED=0"]}
+    static_hits = []
+    for name, fl in tflags.items():
+        rc, out, err = C.sh(["python3", os.path.join(C.VERIF, "translator", "taint.py"), v0.dir] + fl, timeout=300)
+        run.stats["oracle_checks"] += 1
+        summary = (out.strip().splitlines() or ["?"])[-1]
+        run.notes.append("source-level taint analysis, configuration %s: %s" % (name, summary))
+        if rc == 3:
+            static_hits.append((name, ["taint.py could not process the source: " + err[-300:]]))
+        elif rc != 0:
+            static_hits.append((name, [l for l in out.splitlines() if l.startswith("TAINT")][:20]))
+    # (T) the bit-level kernels regenerate as straight-line IR (the IR cannot express a data-dependent branch or address;
+    #     the translator refuses anything else)
+    ck.kernel_tie(run, ("native", "w32", "neutral") if run.tier == "quick" else ("native", "w32", "neutral", "neutral32"))
     scripts = ct_scripts(run.rng, run.tier)
     wrapper = ("valgrind", "-q", "--error-exitcode=66", "--track-origins=no")
     from concurrent.futures import ThreadPoolExecutor
@@ -110,6 +133,11 @@ def p_c08(run):
                                    "variant": v.name, "detail": err[-800:], "script": script.splitlines()})
             elif C.first_diff(out, mout) is not None:
                 run.report_mismatch(title, C.Mismatch("diff", v, script, out, mout, ""), wrapper=wrapper)
+    for name, hits in static_hits:
+        concrete = [v for v in run.violations if not v[2]]
+        run.add_violation({"property": "C08", "kind": "source-level taint analysis",
+                           "what": "a branch, address, size or call target in src/ depends on secret data (configuration %s)" % name,
+                           "sinks": hits}, no_input=not concrete)
     run.notes.append("every script run under valgrind memcheck with key, tweak, counter, input and tweak-array bytes marked "
                      "undefined: any conditional jump or address computed from them is reported")
 
